@@ -283,6 +283,59 @@ Fixpoint spec_run (t : table) (g : sp) (es : list ev) : option sp :=
   | e :: r => match spec_step t g e with Some g' => spec_run t g' r | None => None end
   end.
 
+(* ------------------------------------------------------------------ by-reference parameters bound to resources that are
+   not local variables (an archetype's `ref` parameter with a mapping macro, handed on as `ref e` as in
+   ProcedureSpaghetti): the procedure variable holds the NAME of the resource (RequireArchetypeResourceRef follows
+   it) and iface.Read / iface.Write on that handle go through the MPCalContext's family of resources of C01. *)
+
+Record xst := mkX { x_loc : st; x_ext : ctx }.
+
+Inductive xev :=
+| XLocal (e : ev)
+| XRef (x : string) (a : act).     (* read / write through the by-reference parameter x, bound to a non-local resource *)
+
+Definition xcommit (s : xst) : option xst :=
+  let '(c1, ok) := fam_pc String.eqb node_impl (x_ext s) in
+  if ok then Some (mkX (commit_impl (x_loc s)) (fam_cm String.eqb node_impl c1)) else None.
+
+Definition xabort (s : xst) : xst := mkX (abort_impl (x_loc s)) (fam_ab String.eqb node_impl (x_ext s)).
+
+Definition xstep (t : table) (s : xst) (e : xev) : option xst :=
+  match e with
+  | XLocal ECommit => xcommit s
+  | XLocal e' => match impl_step t (x_loc s) e' with Some l => Some (mkX l (x_ext s)) | None => None end
+  | XRef x a =>
+      match sres (x_loc s) x with
+      | Some sl =>
+          match s_cur sl with
+          | VS h =>
+              match sres (x_loc s) h with
+              | Some _ => None                 (* a reference to a local variable is EWrite h v of the event language *)
+              | None =>
+                  match fam_step String.eqb node_impl (x_ext s) (h, a) with
+                  | (c', Ok _) => Some (mkX (x_loc s) c')
+                  | _ => None
+                  end
+              end
+          | _ => None
+          end
+      | None => None
+      end
+  end.
+
+Fixpoint xrun (t : table) (s : xst) (es : list xev) : option xst :=
+  match es with
+  | [] => Some s
+  | e :: r => match xstep t s e with Some s' => xrun t s' r | None => None end
+  end.
+
+Fixpoint locals_of (es : list xev) : list ev :=
+  match es with
+  | [] => []
+  | XLocal e :: r => e :: locals_of r
+  | XRef _ _ :: r => locals_of r
+  end.
+
 (* ------------------------------------------------------------------ scripted labels (for the tie) *)
 
 Inductive expr :=
@@ -306,65 +359,106 @@ Inductive stmt :=
 
 Definition in_i32 (z : Z) : bool := ((-2147483648 <=? z)%Z && (z <=? 2147483647)%Z)%bool.
 
-Fixpoint eval (s : st) (e : expr) : option (st * val) :=
-  match e with
-  | XC v => Some (s, v)
-  | XV x => iread s x
-  | XAdd e1 k =>
-      match eval s e1 with
-      | Some (s1, VI z) => if in_i32 (z + k) then Some (s1, VI (z + k)) else None
-      | _ => None
+Inductive xr (A : Type) := ROk (a : A) | RRefuse (s : xst) | RCrash.
+Arguments ROk {A} a. Arguments RRefuse {A} s. Arguments RCrash {A}.
+
+Definition lift_loc {A} (s : xst) (o : option (st * A)) : xr (xst * A) :=
+  match o with Some (l, a) => ROk (mkX l (x_ext s), a) | None => RCrash end.
+
+(* iface.Read / iface.Write on the handle a by-reference parameter names *)
+Definition ref_access (s : xst) (x : string) (a : act) : xr (xst * val) :=
+  match sres (x_loc s) x with
+  | Some sl =>
+      match s_cur sl with
+      | VS h =>
+          match sres (x_loc s) h with
+          | Some _ =>
+              match a with
+              | ARead [] => lift_loc s (iread (x_loc s) h)
+              | AWrite [] v => match iwrite (x_loc s) h v with
+                               | Some l => ROk (mkX l (x_ext s), VD)
+                               | None => RCrash
+                               end
+              | _ => RCrash
+              end
+          | None =>
+              match fam_step String.eqb node_impl (x_ext s) (h, a) with
+              | (c', Ok v) => ROk (mkX (x_loc s) c', v)
+              | (c', Refuse) => RRefuse (mkX (x_loc s) c')
+              | (_, Crash) => RCrash
+              end
+          end
+      | _ => RCrash
       end
-  | XDeref x =>
-      match sres s x with
-      | Some sl => match s_cur sl with
-                   | VS target => iread s target
-                   | _ => None
-                   end
-      | None => None
-      end
+  | None => RCrash
   end.
 
-Fixpoint eval_list (s : st) (es : list expr) : option (st * list val) :=
+Fixpoint eval (s : xst) (e : expr) : xr (xst * val) :=
+  match e with
+  | XC v => ROk (s, v)
+  | XV x => lift_loc s (iread (x_loc s) x)
+  | XAdd e1 k =>
+      match eval s e1 with
+      | ROk (s1, VI z) => if in_i32 (z + k) then ROk (s1, VI (z + k)) else RCrash
+      | ROk _ => RCrash
+      | RRefuse s1 => RRefuse s1
+      | RCrash => RCrash
+      end
+  | XDeref x => ref_access s x (ARead [])
+  end.
+
+Fixpoint eval_list (s : xst) (es : list expr) : xr (xst * list val) :=
   match es with
-  | [] => Some (s, [])
+  | [] => ROk (s, [])
   | e :: r =>
       match eval s e with
-      | Some (s1, v) => match eval_list s1 r with
-                        | Some (s2, vs) => Some (s2, v :: vs)
-                        | None => None
-                        end
-      | None => None
+      | ROk (s1, v) => match eval_list s1 r with
+                       | ROk (s2, vs) => ROk (s2, v :: vs)
+                       | RRefuse s2 => RRefuse s2
+                       | RCrash => RCrash
+                       end
+      | RRefuse s1 => RRefuse s1
+      | RCrash => RCrash
       end
   end.
 
 Inductive xres :=
-| XCont (s : st) (lg : list val)           (* fell through the statements *)
-| XTerm (s : st) (lg : list val)           (* ended with call / return / goto: the label returns nil *)
+| XCont (s : xst) (lg : list val)          (* fell through the statements *)
+| XTerm (s : xst) (lg : list val)          (* ended with call / return / goto: the label returns nil *)
+| XRefused (s : xst)                       (* an operation returned ErrCriticalSectionAborted *)
 | XDoneR (lg : list val)                   (* ErrDone *)
 | XCrash.
 
-Fixpoint exec_stmt (t : table) (s : st) (lg : list val) (c : stmt) {struct c} : xres :=
+Definition with_loc (s : xst) (lg : list val) (o : option st) : xres :=
+  match o with Some l => XTerm (mkX l (x_ext s)) lg | None => XCrash end.
+
+Fixpoint exec_stmt (t : table) (s : xst) (lg : list val) (c : stmt) {struct c} : xres :=
   match c with
   | TSet x e => match eval s e with
-                | Some (s1, v) => match iwrite s1 x v with Some s2 => XCont s2 lg | None => XCrash end
-                | None => XCrash
+                | ROk (s1, v) => match iwrite (x_loc s1) x v with
+                                 | Some l => XCont (mkX l (x_ext s1)) lg
+                                 | None => XCrash
+                                 end
+                | RRefuse s1 => XRefused s1
+                | RCrash => XCrash
                 end
   | TSetRef x e =>
       match eval s e with
-      | Some (s1, v) =>
-          match sres s1 x with
-          | Some sl => match s_cur sl with
-                       | VS target => match iwrite s1 target v with Some s2 => XCont s2 lg | None => XCrash end
-                       | _ => XCrash
+      | ROk (s1, v) => match ref_access s1 x (AWrite [] v) with
+                       | ROk (s2, _) => XCont s2 lg
+                       | RRefuse s2 => XRefused s2
+                       | RCrash => XCrash
                        end
-          | None => XCrash
-          end
-      | None => XCrash
+      | RRefuse s1 => XRefused s1
+      | RCrash => XCrash
       end
-  | TLog e => match eval s e with Some (s1, v) => XCont s1 (lg ++ [v]) | None => XCrash end
+  | TLog e => match eval s e with
+              | ROk (s1, v) => XCont s1 (lg ++ [v])
+              | RRefuse s1 => XRefused s1
+              | RCrash => XCrash
+              end
   | TIf c a b =>
-      let go := fix go (l : list stmt) (s : st) (lg : list val) {struct l} : xres :=
+      let go := fix go (l : list stmt) (s : xst) (lg : list val) {struct l} : xres :=
                   match l with
                   | [] => XCont s lg
                   | x :: r => match exec_stmt t s lg x with
@@ -375,26 +469,29 @@ Fixpoint exec_stmt (t : table) (s : st) (lg : list val) (c : stmt) {struct c} : 
       match c with
       | KTrue => go a s lg
       | KEq0 e => match eval s e with
-                  | Some (s1, v) => if val_eqb v (VI 0) then go a s1 lg else go b s1 lg
-                  | None => XCrash
+                  | ROk (s1, v) => if val_eqb v (VI 0) then go a s1 lg else go b s1 lg
+                  | RRefuse s1 => XRefused s1
+                  | RCrash => XCrash
                   end
       end
   | TCall p r args =>
       match eval_list s args with
-      | Some (s1, vs) => match call_impl t s1 p r vs with Some s2 => XTerm s2 lg | None => XCrash end
-      | None => XCrash
+      | ROk (s1, vs) => with_loc s1 lg (call_impl t (x_loc s1) p r vs)
+      | RRefuse s1 => XRefused s1
+      | RCrash => XCrash
       end
   | TTail p args =>
       match eval_list s args with
-      | Some (s1, vs) => match tailcall_impl t s1 p vs with Some s2 => XTerm s2 lg | None => XCrash end
-      | None => XCrash
+      | ROk (s1, vs) => with_loc s1 lg (tailcall_impl t (x_loc s1) p vs)
+      | RRefuse s1 => XRefused s1
+      | RCrash => XCrash
       end
-  | TRet => match return_impl s with Some s1 => XTerm s1 lg | None => XCrash end
-  | TGoto l => match goto_impl t s l with Some s1 => XTerm s1 lg | None => XCrash end
+  | TRet => with_loc s lg (return_impl (x_loc s))
+  | TGoto l => with_loc s lg (goto_impl t (x_loc s) l)
   | TDone => XDoneR lg
   end.
 
-Fixpoint exec_list (t : table) (s : st) (lg : list val) (l : list stmt) : xres :=
+Fixpoint exec_list (t : table) (s : xst) (lg : list val) (l : list stmt) : xres :=
   match l with
   | [] => XCont s lg
   | x :: r => match exec_stmt t s lg x with
@@ -409,34 +506,42 @@ Fixpoint find_label (ls : list (string * list stmt)) (l : string) : option (list
   | (n, b) :: r => if String.eqb n l then Some b else find_label r l
   end.
 
-(* what the harness reports after an attempt: outcome, .pc, .stack, the watched variables *)
-Definition snap (s : st) (watch : list string) : list val :=
-  (match sres s ".pc" with Some x => s_cur x | None => VD end) ::
-  (match sres s ".stack" with Some x => s_cur x | None => VD end) ::
-  map (fun w => match sres s w with Some x => VT [s_cur x] | None => VT [] end) watch.
+(* what the harness reports after an attempt: outcome, .pc, .stack, the watched variables, the non-local resources *)
+Definition snap (s : xst) (watch : list string) (q : list (string * list val)) : list val :=
+  (match sres (x_loc s) ".pc" with Some x => s_cur x | None => VD end) ::
+  (match sres (x_loc s) ".stack" with Some x => s_cur x | None => VD end) ::
+  map (fun w => match sres (x_loc s) w with Some x => VT [s_cur x] | None => VT [] end) watch ++
+  ctx_snap (x_ext s) q.
 
 (* Run's loop: attempt number i aborts after its body if i is listed *)
 Fixpoint run_labels (fuel : nat) (t : table) (labels : list (string * list stmt)) (watch : list string)
-  (aborts : list nat) (i : nat) (s : st) (lg : list val) : list (Z * list val) * list val :=
+  (q : list (string * list val)) (aborts : list nat) (i : nat) (s : xst) (lg : list val)
+  : list (Z * list val) * list val :=
   match fuel with
   | O => ([], lg)
   | S fuel' =>
-      match iread s ".pc" with
-      | Some (s0, VS pc) =>
+      match iread (x_loc s) ".pc" with
+      | Some (l0, VS pc) =>
+          let s0 := mkX l0 (x_ext s) in
+          let aborted := fun s1 =>
+            let s2 := xabort s1 in
+            let '(rest, lg') := run_labels fuel' t labels watch q aborts (S i) s2 lg in
+            ((1, snap s2 watch q) :: rest, lg') in
           match find_label labels pc with
-          | None => ([(2, snap s0 watch)], lg)
+          | None => ([(2, snap s0 watch q)], lg)
           | Some body =>
               match exec_list t s0 lg body with
               | XTerm s1 lg1 =>
-                  if existsb (Nat.eqb i) aborts
-                  then let s2 := abort_impl s1 in
-                       let '(rest, lg') := run_labels fuel' t labels watch aborts (S i) s2 lg in
-                       ((1, snap s2 watch) :: rest, lg')
-                  else let s2 := commit_impl s1 in
-                       let '(rest, lg') := run_labels fuel' t labels watch aborts (S i) s2 lg1 in
-                       ((0, snap s2 watch) :: rest, lg')
+                  if existsb (Nat.eqb i) aborts then aborted s1
+                  else match xcommit s1 with
+                       | Some s2 =>
+                           let '(rest, lg') := run_labels fuel' t labels watch q aborts (S i) s2 lg1 in
+                           ((0, snap s2 watch q) :: rest, lg')
+                       | None => aborted s1
+                       end
+              | XRefused s1 => aborted s1
               | XDoneR lg1 => ([], lg1)
-              | XCont s1 lg1 => ([(2, snap s1 watch)], lg)        (* ErrProcedureFallthrough *)
+              | XCont s1 lg1 => ([(2, snap s1 watch q)], lg)        (* ErrProcedureFallthrough *)
               | XCrash => ([(2, [])], lg)
               end
           end
@@ -459,12 +564,14 @@ Record script := mkScript {
   sc_locals : list (string * val);
   sc_watch : list string;
   sc_aborts : list nat;
-  sc_fuel : nat
+  sc_fuel : nat;
+  sc_ext : list (string * node);             (* the non-local resources bound to the archetype's ref parameters *)
+  sc_query : list (string * list val)
 }.
 
 Definition run_script (c : script) : list (Z * list val) * list val :=
-  run_labels (sc_fuel c) (sc_table c) (sc_labels c) (sc_watch c) (sc_aborts c) 0
-             (init_store (sc_entry c) (sc_locals c)) [].
+  run_labels (sc_fuel c) (sc_table c) (sc_labels c) (sc_watch c) (sc_query c) (sc_aborts c) 0
+             (mkX (init_store (sc_entry c) (sc_locals c)) (mk_ctx (sc_ext c))) [].
 
 (* comparison with the observation: a crashed attempt's snapshot is not compared (the state a
    panic leaves behind is whatever the interrupted loop had done) *)
